@@ -345,6 +345,35 @@ func runMPC(t []string) string {
 			break
 		}
 	}
+	// verify the proof just created, twice with the SAME statement objects (a verifier that
+	// writes into the claimed values or commitments is observed by the second call and by
+	// the before/after comparison)
+	ys := make([]*fr.Element, n)
+	ysBefore := make([]fr.Element, n)
+	for i := range fs {
+		y := fs[i][zs[i]]
+		ys[i] = &y
+		ysBefore[i] = y
+	}
+	vres := func() string {
+		ok, err := multiproof.CheckMultiProof(common.NewTranscript(label), config(), proof, cs, ys, zs)
+		if err != nil {
+			return "ERR"
+		}
+		if ok {
+			return "true"
+		}
+		return "false"
+	}
+	v1 := vres()
+	v2 := vres()
+	sb.WriteString(" V " + v1 + "," + v2)
+	for i := range ys {
+		if *ys[i] != ysBefore[i] {
+			sb.WriteString(" MUTATED-INPUT-ys")
+			break
+		}
+	}
 	return sb.String()
 }
 
